@@ -18,9 +18,11 @@ Promotable(wk, rk) == \/ (wk = "int" /\ rk \in {"long", "float", "double"})
                       \/ (wk = "float" /\ rk = "double")
                       \/ (wk = "string" /\ rk = "bytes") \/ (wk = "bytes" /\ rk = "string")
 
-\* "the same type": same primitive; same kind of named type with matching name; array/array; map/map
+\* "the same type" (the specification's "to match"): same primitive; same kind of named type with matching name - and, for fixed,
+\* the same size ("both schemas are fixed whose sizes and (unqualified) names match"); array/array; map/map
 SameType(w, r) ==
   IF w.k \in PrimKinds THEN r.k = w.k
+  ELSE IF w.k = "fixed" THEN r.k = "fixed" /\ NameMatch(w, r) /\ w.size = r.size
   ELSE IF IsNamedKind(w.k) THEN r.k = w.k /\ NameMatch(w, r)
   ELSE r.k = w.k
 
